@@ -66,7 +66,8 @@ fn option_prefix() -> impl Strategy<Value = String> {
 
 fn wide_prog() -> impl Strategy<Value = String> {
     // many branches with a few steps: exercises every per-branch / per-step name
-    (1usize..12, proptest::collection::vec((0usize..4, 0usize..3), 12), proptest::option::weighted(0.3, 0usize..3)).prop_map(|(n, shape, h)| {
+    // (two-digit branch counts in a third of them: positional names and indices of 10 and above)
+    (prop_oneof![2 => 1usize..12, 1 => 10usize..27], proptest::collection::vec((0usize..4, 0usize..3), 27), proptest::option::weighted(0.3, 0usize..3)).prop_map(|(n, shape, h)| {
         let mut parts = Vec::new();
         for b in 0..n {
             let (steps, extra) = shape[b];
@@ -134,6 +135,20 @@ pub fn run_history(h: &History) -> Result<(), String> {
             };
             if table.get(&(*i, *c)) != Some(&out) {
                 return Err(format!("decoupled: expansion #{} of input {} (config {:?}) from a parse result kept while other inputs were parsed differs from its first expansion", k, i, CONFIGS[*c]));
+            }
+        }
+    }
+    // isolated pass: every (input, configuration) of the table once more on a thread of its own that has
+    // expanded nothing else - what an expansion leaves behind in thread-local state must not matter
+    // (every second history, chosen by its content)
+    if fnv(&h.pool[0]) % 2 == 0 {
+        let mut keys: Vec<(usize, usize)> = table.keys().cloned().collect();
+        keys.sort();
+        for (i, c) in keys {
+            let text = h.pool[i].clone();
+            let out = std::thread::spawn(move || expand_string(&text, c)).join().map_err(|_| "a worker thread panicked outside catch_unwind".to_string())?;
+            if table.get(&(i, c)) != Some(&out) {
+                return Err(format!("isolated: the expansion of input {} (config {:?}) on a fresh thread differs from its first expansion in the history", i, CONFIGS[c]));
             }
         }
     }
